@@ -2,3 +2,269 @@
 From BVA Require Import Base.Prelude Base.Result Base.Words Base.Limbs.
 From BVA Require Import Model.Core Model.Ops Model.Arith Model.Conv Model.Auto Spec.Spec Proofs.Common.
 From Coq Require Import ZifyBool ZifyN ZifyNat.
+
+(* Rotations: v_rotl / v_rotr copy chunks of l bits from the source into a fresh zeroed storage
+   with or_bits; every destination bit is written exactly once, so OR acts as assignment. *)
+
+(* ------------------------------------------------------------------ rotated index *)
+
+(* (a + r) mod len, kept folded so that lia treats it as an atom *)
+Definition ridx (a r len : N) : N := (a + r) mod len.
+
+Lemma ridx_case a r len : a < len -> r <= len ->
+  ridx a r len = if a + r <? len then a + r else a + r - len.
+Proof.
+  intros Ha Hr. unfold ridx. destruct (N.ltb_spec (a + r) len) as [H|H].
+  - apply N.mod_small. assumption.
+  - symmetry. apply (N.mod_unique _ _ 1); lia.
+Qed.
+
+Lemma ridx_lt a r len : 0 < len -> ridx a r len < len.
+Proof. intros H. unfold ridx. apply mod_lt'. assumption. Qed.
+
+(* inside one chunk the rotated index moves in lock step *)
+Lemma ridx_chunk a r len t : a + t < len -> r <= len -> ridx a r len + t < len ->
+  ridx (a + t) r len = ridx a r len + t.
+Proof.
+  intros H1 H2.
+  rewrite (ridx_case a r len), (ridx_case (a + t) r len) by lia.
+  destruct (N.ltb_spec (a + r) len); destruct (N.ltb_spec (a + t + r) len); lia.
+Qed.
+
+Lemma ridx_post_pre a r len : a < len -> r <= len -> ridx (ridx a r len) (len - r) len = a.
+Proof.
+  intros Ha Hr. rewrite (ridx_case a r len) by assumption.
+  destruct (N.ltb_spec (a + r) len).
+  - rewrite ridx_case by lia. destruct (N.ltb_spec (a + r + (len - r)) len); lia.
+  - rewrite ridx_case by lia. destruct (N.ltb_spec (a + r - len + (len - r)) len); lia.
+Qed.
+
+Lemma ridx_pre_post a r len : a < len -> r <= len -> ridx (ridx a (len - r) len) r len = a.
+Proof.
+  intros Ha Hr. pose proof (ridx_post_pre a (len - r) len Ha) as H.
+  replace (len - (len - r)) with r in H by lia. apply H. lia.
+Qed.
+
+(* the chunk length chosen by the loops *)
+Lemma chunk_len w a b len : 0 < w -> a < len -> b < len ->
+  exists l, min4 (w - a mod w) (w - b mod w) (len - a) (len - b) = l /\
+    0 < l /\ a mod w + l <= w /\ b mod w + l <= w /\ a + l <= len /\ b + l <= len.
+Proof.
+  intros Hw Ha Hb. pose proof (mod_lt' a w Hw) as H1. pose proof (mod_lt' b w Hw) as H2.
+  eexists. split; [reflexivity|]. unfold min4.
+  revert H1 H2. generalize (a mod w) (b mod w). intros x y H1 H2. lia.
+Qed.
+
+(* ------------------------------------------------------------------ or_bits *)
+
+Section W.
+Variable w : N.
+Hypothesis Hw : 0 < w.
+
+Lemma words_ok_or_bits d pos v : words_ok w d -> words_ok w (or_bits w d pos v).
+Proof.
+  intros Hd. unfold or_bits. apply words_ok_setw; [assumption|].
+  apply lt_pow2_of_bits. intros i Hi. rewrite N.lor_spec, shlw_testbit.
+  rewrite (testbit_high (getw d (pos / w)) w i) by (try apply getw_ok; assumption).
+  assert (i <? w = false) as -> by (apply N.ltb_ge; assumption). reflexivity.
+Qed.
+
+Lemma lenw_or_bits d pos v : lenw (or_bits w d pos v) = lenw d.
+Proof. unfold or_bits. apply lenw_setw. Qed.
+
+Lemma or_bits_testbit d pos l v i :
+  words_ok w d -> pos / w < lenw d -> pos mod w + l <= w -> v < 2 ^ l ->
+  N.testbit (raw w (or_bits w d pos v)) i =
+  N.testbit (raw w d) i || ((pos <=? i) && (i <? pos + l) && N.testbit v (i - pos)).
+Proof.
+  intros Hd Hp Hl Hv.
+  rewrite !(raw_testbit w Hw) by (try apply words_ok_or_bits; assumption).
+  unfold or_bits. rewrite getw_setw.
+  assert (pos / w <? lenw d = true) as -> by (apply N.ltb_lt; assumption).
+  rewrite andb_true_r.
+  pose proof (div_mod_eq pos w) as Ep. pose proof (mod_lt' pos w Hw) as Hpm.
+  pose proof (div_mod_eq i w) as Ei. pose proof (mod_lt' i w Hw) as Him.
+  clear Hd Hp.
+  destruct (N.eqb_spec (pos / w) (i / w)) as [Heq|Hne].
+  - rewrite N.lor_spec, shlw_testbit. rewrite Heq. f_equal.
+    assert (i mod w <? w = true) as -> by (apply N.ltb_lt; assumption). cbn [andb].
+    rewrite Heq in Ep. revert Ep Hpm Ei Him Hl.
+    generalize (pos mod w) (i mod w) (i / w). intros pm im q Ep Hpm Ei Him Hl.
+    assert ((pm <=? im) = (pos <=? i)) as ->.
+    { destruct (N.leb_spec pm im); destruct (N.leb_spec pos i); try reflexivity; lia. }
+    destruct (N.leb_spec pos i) as [Hle|Hgt]; cbn [andb]; [|reflexivity].
+    replace (im - pm) with (i - pos) by lia.
+    destruct (N.ltb_spec i (pos + l)); cbn [andb]; [reflexivity|].
+    apply (testbit_high v l); [assumption|lia].
+  - assert ((pos <=? i) && (i <? pos + l) = false) as ->; [|cbn [andb]; rewrite orb_false_r; reflexivity].
+    apply andb_false_iff.
+    destruct (N.lt_ge_cases (i / w) (pos / w)).
+    + left. apply N.leb_gt. nia.
+    + right. apply N.ltb_ge. assert (pos / w + 1 <= i / w) by lia. nia.
+Qed.
+
+(* copying one chunk of l bits from src[spos..] to dst[dpos..] *)
+Lemma copy_chunk_testbit src dst spos dpos l i :
+  words_ok w src -> words_ok w dst -> dpos / w < lenw dst ->
+  dpos mod w + l <= w -> spos mod w + l <= w ->
+  N.testbit (raw w (or_bits w dst dpos (read_bits w src spos l))) i =
+  N.testbit (raw w dst) i ||
+  ((dpos <=? i) && (i <? dpos + l) && N.testbit (raw w src) (spos + (i - dpos))).
+Proof.
+  intros Hs Hd Hp Hdl Hsl.
+  rewrite (or_bits_testbit dst dpos l) by (assumption || apply read_bits_lt).
+  rewrite (read_bits_testbit w Hw) by assumption.
+  f_equal.
+  destruct (N.leb_spec dpos i) as [H1|H1]; cbn [andb]; [|reflexivity].
+  destruct (N.ltb_spec i (dpos + l)) as [H2|H2]; cbn [andb]; [|reflexivity].
+  assert (i - dpos <? l = true) as -> by (apply N.ltb_lt; lia). reflexivity.
+Qed.
+
+(* ------------------------------------------------------------------ rotr *)
+
+Lemma rotr_loop_inv rot len src :
+  words_ok w src -> len <= w * lenw src -> rot <= len ->
+  forall fuel dst idx,
+    words_ok w dst -> lenw dst = lenw src -> idx <= len -> (N.to_nat (len - idx) < fuel)%nat ->
+    (forall i, N.testbit (raw w dst) i = (i <? idx) && N.testbit (raw w src) (ridx i rot len)) ->
+    exists d', rotr_loop fuel w rot len src dst idx = Ok d' /\ words_ok w d' /\ lenw d' = lenw src /\
+      (forall i, N.testbit (raw w d') i = (i <? len) && N.testbit (raw w src) (ridx i rot len)).
+Proof.
+  intros Hs Hlen Hrot. induction fuel as [|f IH]; intros dst idx Hd Hld Hidx Hfuel Hinv; [lia|].
+  cbn [rotr_loop].
+  destruct (N.ltb_spec idx len) as [Hlt|Hge].
+  - change ((idx + rot) mod len) with (ridx idx rot len).
+    assert (Hold : ridx idx rot len < len) by (apply ridx_lt; lia).
+    destruct (chunk_len w idx (ridx idx rot len) len Hw Hlt Hold) as (l & -> & Hl0 & Hl1 & Hl2 & Hl3 & Hl4).
+    assert (Hdiv : idx / w < lenw dst).
+    { apply div_lt_of_lt_mul; [assumption|]. rewrite Hld. lia. }
+    apply IH.
+    + apply words_ok_or_bits; assumption.
+    + rewrite lenw_or_bits. assumption.
+    + lia.
+    + clear - Hl0 Hl3 Hfuel. lia.
+    + intros i. rewrite copy_chunk_testbit by assumption. rewrite Hinv.
+      clear - Hl0 Hl3 Hl4 Hlt Hrot.
+      destruct (N.ltb_spec i idx) as [H1|H1].
+      * assert (idx <=? i = false) as -> by (apply N.leb_gt; assumption).
+        assert (i <? idx + l = true) as -> by (apply N.ltb_lt; lia).
+        cbn [andb]. apply orb_false_r.
+      * assert (idx <=? i = true) as -> by (apply N.leb_le; assumption).
+        cbn [andb orb].
+        destruct (N.ltb_spec i (idx + l)) as [H3|H3]; cbn [andb]; [|reflexivity].
+        f_equal. replace i with (idx + (i - idx)) at 2 by lia.
+        symmetry. apply ridx_chunk; lia.
+  - exists dst. split; [reflexivity|]. split; [assumption|]. split; [assumption|].
+    assert (idx = len) by lia. subst idx. assumption.
+Qed.
+
+(* ------------------------------------------------------------------ rotl *)
+
+(* the source index of destination bit i is ridx i (len - rot) len *)
+Lemma rotl_loop_inv rot len src :
+  words_ok w src -> len <= w * lenw src -> rot <= len ->
+  forall fuel dst idx,
+    words_ok w dst -> lenw dst = lenw src -> idx <= len -> (N.to_nat (len - idx) < fuel)%nat ->
+    (forall i, N.testbit (raw w dst) i =
+               (i <? len) && (ridx i (len - rot) len <? idx) && N.testbit (raw w src) (ridx i (len - rot) len)) ->
+    exists d', rotl_loop fuel w rot len src dst idx = Ok d' /\ words_ok w d' /\ lenw d' = lenw src /\
+      (forall i, N.testbit (raw w d') i = (i <? len) && N.testbit (raw w src) (ridx i (len - rot) len)).
+Proof.
+  intros Hs Hlen Hrot. induction fuel as [|f IH]; intros dst idx Hd Hld Hidx Hfuel Hinv; [lia|].
+  cbn [rotl_loop].
+  destruct (N.ltb_spec idx len) as [Hlt|Hge].
+  - change ((idx + rot) mod len) with (ridx idx rot len).
+    assert (Hnew : ridx idx rot len < len) by (apply ridx_lt; lia).
+    assert (Hpre : ridx (ridx idx rot len) (len - rot) len = idx) by (apply ridx_post_pre; lia).
+    remember (ridx idx rot len) as new eqn:Enew.
+    destruct (chunk_len w new idx len Hw Hnew Hlt) as (l & -> & Hl0 & Hl1 & Hl2 & Hl3 & Hl4).
+    assert (Hdiv : new / w < lenw dst).
+    { apply div_lt_of_lt_mul; [assumption|]. rewrite Hld. lia. }
+    apply IH.
+    + apply words_ok_or_bits; assumption.
+    + rewrite lenw_or_bits. assumption.
+    + lia.
+    + clear - Hl0 Hl4 Hfuel. lia.
+    + intros i. rewrite copy_chunk_testbit by assumption. rewrite Hinv.
+      clear - Hl0 Hl3 Hl4 Hlt Hrot Hnew Hpre Enew.
+      assert (Hout : i < len -> idx <= ridx i (len - rot) len -> ridx i (len - rot) len < idx + l ->
+                     new <= i < new + l).
+      { intros Hil Hp1 Hp2.
+        assert (E : ridx (ridx i (len - rot) len) rot len = i) by (apply ridx_pre_post; lia).
+        remember (ridx i (len - rot) len) as p eqn:Ep. clear Ep.
+        replace p with (idx + (p - idx)) in E by lia.
+        rewrite ridx_chunk in E by lia. lia. }
+      destruct (N.leb_spec new i) as [H2|H2]; [destruct (N.ltb_spec i (new + l)) as [H3|H3]|]; cbn [andb].
+      * (* i inside the destination chunk *)
+        assert (ridx i (len - rot) len = idx + (i - new)) as ->.
+        { replace i with (new + (i - new)) at 1 by lia. rewrite ridx_chunk; lia. }
+        assert (i <? len = true) as -> by (apply N.ltb_lt; lia).
+        assert (idx + (i - new) <? idx = false) as -> by (apply N.ltb_ge; lia).
+        assert (idx + (i - new) <? idx + l = true) as -> by (apply N.ltb_lt; lia).
+        reflexivity.
+      * rewrite orb_false_r.
+        destruct (N.ltb_spec i len) as [Hil|Hil]; cbn [andb]; [|reflexivity].
+        f_equal. specialize (Hout Hil).
+        destruct (N.ltb_spec (ridx i (len - rot) len) idx);
+          destruct (N.ltb_spec (ridx i (len - rot) len) (idx + l)); try reflexivity; lia.
+      * rewrite orb_false_r.
+        destruct (N.ltb_spec i len) as [Hil|Hil]; cbn [andb]; [|reflexivity].
+        f_equal. specialize (Hout Hil).
+        destruct (N.ltb_spec (ridx i (len - rot) len) idx);
+          destruct (N.ltb_spec (ridx i (len - rot) len) (idx + l)); try reflexivity; lia.
+  - exists dst. split; [reflexivity|]. split; [assumption|]. split; [assumption|].
+    assert (idx = len) by lia. subst idx. intros i. rewrite Hinv.
+    destruct (N.ltb_spec i len) as [Hil|Hil]; cbn [andb]; [|reflexivity].
+    assert (ridx i (len - rot) len <? len = true) as -> by (apply N.ltb_lt, ridx_lt; lia).
+    reflexivity.
+Qed.
+
+End W.
+
+(* ------------------------------------------------------------------ main statements *)
+
+Lemma rotl_spec w v r :
+  0 < w -> canon_wv w v -> r <= wl v ->
+  exists v', v_rotl w v r = Ok v' /\ canon_wv w v' /\ wl v' = wl v /\ lenw (wd v') = lenw (wd v) /\
+    forall i, i < wl v -> N.testbit (raw w (wd v')) ((i + r) mod wl v) = N.testbit (raw w (wd v)) i.
+Proof.
+  intros Hw (Hok & Hlen & Hraw) Hr.
+  destruct (rotl_loop_inv w Hw r (wl v) (wd v) Hok Hlen Hr (S (N.to_nat (wl v))) (zerosw (lenw (wd v))) 0)
+    as (d' & E & Hd' & Hl' & Hb).
+  - apply words_ok_zerosw.
+  - apply lenw_zerosw.
+  - lia.
+  - lia.
+  - intros i. rewrite raw_zerosw, N.bits_0.
+    assert (ridx i (wl v - r) (wl v) <? 0 = false) as -> by (apply N.ltb_ge; lia).
+    rewrite andb_false_r. reflexivity.
+  - exists (mkwv d' (wl v)). unfold v_rotl. rewrite E. cbn [bind wd wl].
+    split; [reflexivity|]. split; [|split; [reflexivity|split; [assumption|]]].
+    + apply canon_of_bits; [assumption|rewrite Hl'; assumption|].
+      intros i Hi. rewrite Hb. assert (i <? wl v = false) as -> by (apply N.ltb_ge; assumption). reflexivity.
+    + intros i Hi. change ((i + r) mod wl v) with (ridx i r (wl v)). rewrite Hb.
+      assert (ridx i r (wl v) <? wl v = true) as -> by (apply N.ltb_lt, ridx_lt; lia).
+      cbn [andb]. f_equal. apply ridx_post_pre; assumption.
+Qed.
+
+Lemma rotr_spec w v r :
+  0 < w -> canon_wv w v -> r <= wl v ->
+  exists v', v_rotr w v r = Ok v' /\ canon_wv w v' /\ wl v' = wl v /\ lenw (wd v') = lenw (wd v) /\
+    forall i, i < wl v -> N.testbit (raw w (wd v')) i = N.testbit (raw w (wd v)) ((i + r) mod wl v).
+Proof.
+  intros Hw (Hok & Hlen & Hraw) Hr.
+  destruct (rotr_loop_inv w Hw r (wl v) (wd v) Hok Hlen Hr (S (N.to_nat (wl v))) (zerosw (lenw (wd v))) 0)
+    as (d' & E & Hd' & Hl' & Hb).
+  - apply words_ok_zerosw.
+  - apply lenw_zerosw.
+  - lia.
+  - lia.
+  - intros i. rewrite raw_zerosw, N.bits_0.
+    assert (i <? 0 = false) as -> by (apply N.ltb_ge; lia). reflexivity.
+  - exists (mkwv d' (wl v)). unfold v_rotr. rewrite E. cbn [bind wd wl].
+    split; [reflexivity|]. split; [|split; [reflexivity|split; [assumption|]]].
+    + apply canon_of_bits; [assumption|rewrite Hl'; assumption|].
+      intros i Hi. rewrite Hb. assert (i <? wl v = false) as -> by (apply N.ltb_ge; assumption). reflexivity.
+    + intros i Hi. rewrite Hb.
+      assert (i <? wl v = true) as -> by (apply N.ltb_lt; assumption). reflexivity.
+Qed.
